@@ -58,7 +58,13 @@ def check_history(ctx, anchor, label, cells, steps, sheet='Sheet1', why='', cach
     trail = []
     for step in steps:
         if step[0] == 'set':
-            if through_model:
+            if through_model == 'cell':
+                wb.set_cell(f'{sheet}!{step[1]}', step[2])           # the address given as an XLCell object
+                back = wb.get_cell(f'{sheet}!{step[1]}')
+                n += 1
+                ctx.expect(same(back, V.norm(step[2])) or back == step[2], anchor, f'{label}: get_cell_value(XLCell {step[1]}) after set {step[1]}={step[2]!r}',
+                           f'set_cell_value(XLCell({step[1]}), {step[2]!r}) then get_cell_value(XLCell({step[1]})) returns {back!r}')
+            elif through_model:
                 wb.set_model(f'{sheet}!{step[1]}', step[2])
             else:
                 wb.set(f'{sheet}!{step[1]}', step[2])
